@@ -245,6 +245,9 @@ pub struct ScriptStrategy<State> {
     pub disconnects: Arc<Mutex<Vec<ExchangeId>>>,
     pub disabled_calls: Arc<AtomicU64>,
     pub close_cid_counter: Arc<AtomicU64>,
+    /// a "flatten everything" close strategy: `close_positions_requests` also cancels every tracked order of the
+    /// filtered instruments (the default close strategy emits market orders only)
+    pub close_also_cancels: Arc<std::sync::atomic::AtomicBool>,
     phantom: std::marker::PhantomData<fn() -> State>,
 }
 
@@ -257,6 +260,7 @@ impl<State> Clone for ScriptStrategy<State> {
             disconnects: self.disconnects.clone(),
             disabled_calls: self.disabled_calls.clone(),
             close_cid_counter: self.close_cid_counter.clone(),
+            close_also_cancels: self.close_also_cancels.clone(),
             phantom: std::marker::PhantomData,
         }
     }
@@ -271,6 +275,7 @@ impl<State> Default for ScriptStrategy<State> {
             disconnects: Default::default(),
             disabled_calls: Default::default(),
             close_cid_counter: Default::default(),
+            close_also_cancels: Default::default(),
             phantom: std::marker::PhantomData,
         }
     }
@@ -326,10 +331,17 @@ where
         InstrumentIndex: 'a,
     {
         let counter: &'a AtomicU64 = &self.close_cid_counter;
-        close_open_positions_with_market_orders(&self.id, state, filter, move |s| {
+        let (_no_cancels, opens) = close_open_positions_with_market_orders(&self.id, state, filter, move |s| {
             let n = counter.fetch_add(1, Ordering::Relaxed);
             ClientOrderId::new(format!("close-{}-{}", s.key.index(), n))
-        })
+        });
+        let cancels: Vec<OrderRequestCancel<ExchangeIndex, InstrumentIndex>> = if self.close_also_cancels.load(Ordering::Relaxed) {
+            use barter::engine::state::order::manager::OrderManager;
+            state.instruments.orders(filter).flat_map(|s| s.orders().filter_map(barter_execution::order::Order::to_request_cancel)).collect()
+        } else {
+            vec![]
+        };
+        (cancels, opens)
     }
 }
 
